@@ -21,6 +21,47 @@ def sensor_rest():
     return _SENSOR_REST
 
 
+async def _run_hist(history, via):
+    """history: [0, pairs] announcement | [1, unsupported] set-up finishes (frame errors published)."""
+    from pyplumio.devices.ecomax import EcoMAX
+    from pyplumio.frames.messages import SensorDataMessage
+    from pyplumio.structures.network_info import NetworkInfo
+    q = asyncio.Queue()
+    dev = EcoMAX(q, network=NetworkInfo())
+    outs = []
+
+    async def settle():
+        for _ in range(6):
+            pending = [t for t in dev.tasks if not t.done()]
+            if not pending:
+                break
+            await asyncio.gather(*pending, return_exceptions=True)
+        await asyncio.sleep(0)
+
+    for ev in history:
+        if ev[0] == 1:
+            await dev.dispatch("frame_errors", list(ev[1]))
+        elif via == "dispatch":
+            d = {}
+            for c, v in ev[1]:
+                d[c] = v
+            try:
+                await dev.dispatch("frame_versions", d)
+            except Exception as e:  # noqa: BLE001
+                outs.append(["exception", type(e).__name__])
+                continue
+        else:
+            ann = ev[1]
+            table = bytes([len(ann)]) + b"".join(bytes([c, v & 0xFF, v >> 8]) for c, v in ann)
+            dev.handle_frame(SensorDataMessage(message=bytearray(table + sensor_rest())))
+        await settle()
+        o = []
+        while not q.empty():
+            o.append(int(q.get_nowait().frame_type))
+        outs.append(o)
+    return outs
+
+
 async def _run(unsup, history, via):
     from pyplumio.devices.ecomax import EcoMAX
     from pyplumio.frames.messages import SensorDataMessage
@@ -98,24 +139,42 @@ class C15(Prop):
                     c0 = ann[0][0]
                     ann.append([c0, (ann[0][1] + 1) % 65536])       # duplicate code in one table: the last value wins
                 hist.append(ann)
-            cases.append({"kind": "dispatch" if i % 2 else "sensor-frame", "unsup": unsup, "history": hist})
+            if i % 3 == 0:
+                # set-up finishes somewhere inside the history: before that nothing is unsupported
+                k = rng.randrange(0, len(hist) + 1)
+                h2 = [[0, a] for a in hist[:k]] + [[1, unsup]] + [[0, a] for a in hist[k:]]
+                cases.append({"kind": "hist:" + ("dispatch" if i % 2 else "sensor-frame"), "hist": h2})
+            else:
+                cases.append({"kind": "dispatch" if i % 2 else "sensor-frame", "unsup": unsup, "history": hist})
         return cases
 
     def run_impl(self, c):
+        if "hist" in c:
+            return vloop.run(_run_hist, c["hist"], "dispatch" if c["kind"].endswith("dispatch") else "frame")
         return vloop.run(_run, c["unsup"], c["history"], "dispatch" if c["kind"] == "dispatch" else "frame")
 
+    @staticmethod
+    def _h(c):
+        return [[e[0], (bytes(e[1]) if e[0] == 1 else e[1])] for e in c["hist"]]
+
     def model_many(self, cases):
-        res = model.call_many("announce_all", [[bytes(c["unsup"]), c["history"]] for c in cases])
-        return [r[0] for r in res]
+        a = [c for c in cases if "hist" not in c]
+        b = [c for c in cases if "hist" in c]
+        ra = iter(model.call_many("announce_all", [[bytes(c["unsup"]), c["history"]] for c in a]))
+        rb = iter(model.call_many("announce_hist", [self._h(c) for c in b]))
+        return [next(rb) if "hist" in c else next(ra)[0] for c in cases]
 
     def spec_many(self, cases, behaviours):
         bad = [any(o and o[0] == "exception" for o in b) for b in behaviours]
-        res = model.call_many("P15", [[bytes(c["unsup"]), c["history"], [bytes(o) if not (o and o[0] == "exception") else b"" for o in b]]
-                                      for c, b in zip(cases, behaviours)])
-        return [bool(r) and not x for r, x in zip(res, bad)]
+        clean = lambda b: [bytes(o) if not (o and o[0] == "exception") else b"" for o in b]
+        a = [(c, b) for c, b in zip(cases, behaviours) if "hist" not in c]
+        h = [(c, b) for c, b in zip(cases, behaviours) if "hist" in c]
+        ra = iter(model.call_many("P15", [[bytes(c["unsup"]), c["history"], clean(b)] for c, b in a]))
+        rh = iter(model.call_many("P15h", [[self._h(c), clean(b)] for c, b in h]))
+        return [bool(next(rh) if "hist" in c else next(ra)) and not x for c, x in zip(cases, bad)]
 
     def nontrivial_key(self, c, mb):
-        return repr((c["unsup"], c["history"])) if any(mb) else None
+        return repr(c) if any(mb) else None
 
     def kind(self, c):
         return c["kind"]
